@@ -15,6 +15,7 @@
     C04_longest_type(_none)           `_split_uscored_by_type` = longest `_`-boundary prefix, exact remainder
     C04_method_sound                  `_is_method` ⇒ first parameter is a class/interface/record/union/boxed of
     C04_method_prefix_is_type_prefix  THIS namespace ∧ (annotated ∨ symbol starts with the type's prefix)
+    C04_method_owner                  `_setup_method` hangs the function on the type of its first parameter only
     C04_method_ctor_sound_partial     `_is_constructor` ⇒ origin is of this namespace, registered under the
                                       longest type prefix (or annotated), return type = origin or an ancestor
     C04_method_name_partial           the cut that names methods / constructors yields the remainder
@@ -40,7 +41,7 @@
   * `C04_method_name_partial`: hypothesis `hfind` excludes exactly the input class of the second
     confirmed defect: the stripped symbol occurs earlier in the symbol than at its own position
     (`str.find` returns the leftmost occurrence).  Full statement: `C04_method_name_full`.
-  * `C04_only_public_symbols`, `C04_static_sound`, `C04_ctor_name`: none.
+  * `C04_only_public_symbols`, `C04_static_sound`, `C04_ctor_name`, `C04_method_owner`: none.
   * `C04_once`: none (the model's own `dupCid` guard turns "two declarations share a C identifier",
     which C forbids, into an error outcome instead of a hypothesis).
   * `C04_to_underscores*`: words are `[A-Z][a-z0-9]+` (at least one lower-case/digit character
@@ -340,6 +341,30 @@ theorem C04_method_prefix_is_type_prefix (target : Target) (sub : Str) :
     · left; rfl
   · left; rfl
 
+/-- `_setup_method` hangs the function on the type of its FIRST parameter and on nothing else:
+    either moved there as a method (annotated: under its namespace-stripped name; otherwise under
+    the cut name), or — when the symbol continues the type prefix without `_` (`g_resources_register`)
+    — left at top level with a moved-to compatibility method copy on that type. -/
+theorem C04_method_owner (env : Env) (st : NsState) (f : Node) (sub : Str) (first : CT) (rest : List CT)
+    (target : Target) (hp : f.params = first :: rest) (ht : lookupCT env st first = some target) :
+    (∃ newName mark, setupMethod env st f sub = st.pairMove f.name target.name .method newName mark ∧
+        (f.isMethod = true → newName = f.name)) ∨
+    (f.isMethod = false ∧ startsWith sub (getUscoredPrefix target sub ++ ['_']) = false ∧
+      ∃ newName, setupMethod env st f sub = st.pairCompat f.name target.name newName) := by
+  unfold setupMethod
+  rw [hp]
+  simp only [ht]
+  by_cases hc : (!f.isMethod && !startsWith sub (getUscoredPrefix target sub ++ ['_'])) = true
+  · right
+    rw [if_pos hc]
+    simp only [Bool.and_eq_true, Bool.not_eq_true'] at hc
+    exact ⟨hc.1, hc.2, _, rfl⟩
+  · left
+    rw [if_neg hc]
+    refine ⟨_, _, rfl, ?_⟩
+    intro hm
+    simp [hm]
+
 /-- what the property demands of a constructor's return type -/
 def CtorReturnOk (env : Env) (st : NsState) (target origin : Target) : Prop :=
   if target.kind = Kind.cls then
@@ -638,6 +663,9 @@ def wShow : Node :=
   { uid := 4, kind := .function, name := "widget_show".toList, cid := "gtk_widget_show".toList,
     ret := ⟨"void".toList, 0, true⟩, params := [⟨"GtkWidget".toList, 1, false⟩] }
 example : isMethod wEnv wSt wShow "widget_show".toList = true := by decide +kernel
+/-- non-vacuity of `C04_method_owner`: `gtk_widget_show` hangs on Widget, the type of its first parameter -/
+example : (lookupCT wEnv wSt ⟨"GtkWidget".toList, 1, false⟩).map (·.name) = some "Widget".toList := by
+  decide +kernel
 
 def wInput : Input :=
   { env := { cfg := { wCfg with cur := ⟨"Foo".toList, ["Foo".toList], ["foo".toList], []⟩, incs := [] },
